@@ -44,8 +44,9 @@ type semSpec struct {
 	args     func(r *sg.Rng, root *sg.Schema) []string
 	intLim   bool
 	parity   bool
-	optsFn   func(i int, o sg.Opts) sg.Opts                // per-case variation of the generator options
-	post     func(ctx *Ctx, cases []*sem.Case, o *Outcome) // extra monitors over the generated programs
+	optsFn   func(i int, o sg.Opts) sg.Opts                                         // per-case variation of the generator options
+	post     func(ctx *Ctx, cases []*sem.Case, o *Outcome)                          // extra monitors after the run (programs already released)
+	census   func(ctx *Ctx) (each func(cases []*sem.Case), finish func(o *Outcome)) // per-chunk census over live programs
 }
 
 var commonAssumptions = []string{
@@ -96,11 +97,18 @@ func runSem(ctx *Ctx, sp *semSpec) (*Outcome, error) {
 	if cfg.PerSite == 0 {
 		cfg.PerSite = 3
 	}
+	var finish func(o *Outcome)
+	if sp.census != nil {
+		cfg.AfterBatch, finish = sp.census(ctx)
+	}
 	rep, err := sem.Run(cfg)
 	if err != nil {
 		return nil, err
 	}
 	o := FromSem(ctx, rep, sp.rule, sp.minDec, append(append([]string{}, commonAssumptions...), sp.assume...))
+	if finish != nil {
+		finish(o)
+	}
 	if sp.post != nil {
 		sp.post(ctx, cases, o)
 	}
@@ -117,6 +125,7 @@ func init() {
 		classes: docgen.Classes{"addkey": true, "delopt": true, "bound": true},
 		own:     func(d docgen.Doc, mr model.Result) bool { return mr.V == model.Accept },
 		values:  true, byValue: true, addProps: true, defaults: false,
+		extra: func(ctx *Ctx, i int, r *sg.Rng) *sem.Case { return sameRefTextTwinCase(ctx, i, r, ctx.N(18, 120)) },
 		args: func(r *sg.Rng, root *sg.Schema) []string {
 			var a []string
 			// anyOf + --min-sized-ints: the merged struct's sized fields reject values another branch admits
@@ -181,7 +190,7 @@ func init() {
 		opts:    sg.Opts{MaxDepth: 2, RootKinds: true, W: map[string]float64{"enum": 10, "array": 2, "ref": 2}, PDefault: 0.4},
 		classes: docgen.Classes{"enum": true},
 		own:     classOwner("enum", "valid"),
-		post:    enumConstCensus,
+		census:  enumConstCensus,
 		values:  true, byValue: true,
 		nQuick: 400, nThor: 6000, valid: 4, perSite: 6, maxDocs: 150, minDec: 3000,
 		rule: "enum lists of 1-4 values per kind (string, integer, number, boolean, mixed incl. null), typed/untyped, inline / $ref / array items / with default; per enum position every member and near-miss non-members of every JSON type; verdict vs model (JSON equality) and re-marshal (by pointer and by value) must give the bare value",
@@ -321,101 +330,105 @@ var c17strata []*sem.Case
 
 // enumConstCensus checks, through go/types on the emitted package, that every string enum of the schema is exposed as
 // one typed constant per listed value whose value is that string (C08, second sentence).
-func enumConstCensus(ctx *Ctx, cases []*sem.Case, o *Outcome) {
+func enumConstCensus(ctx *Ctx) (func(cases []*sem.Case), func(o *Outcome)) {
 	enums, missing, extra := 0, 0, 0
 	var viols []Viol
-	for _, c := range cases {
-		p := sem.ProgramOf(c)
-		if p == nil || !p.Usable() || p.Report.Pkg == nil {
-			continue
-		}
-		onlyModels := false
-		for _, a := range c.Args {
-			onlyModels = onlyModels || a == "--only-models"
-		}
-		// constants of the package grouped by their named type
-		byType := map[string]map[string]bool{}
-		scope := p.Report.Pkg.Scope()
-		for _, name := range scope.Names() {
-			cn, ok := scope.Lookup(name).(*types.Const)
-			if !ok {
+	each := func(cases []*sem.Case) {
+		for _, c := range cases {
+			p := sem.ProgramOf(c)
+			if p == nil || !p.Usable() || p.Report.Pkg == nil {
 				continue
 			}
-			nt, ok := cn.Type().(*types.Named)
-			if !ok || cn.Val().Kind() != constant.String {
-				continue
+			onlyModels := false
+			for _, a := range c.Args {
+				onlyModels = onlyModels || a == "--only-models"
 			}
-			tn := nt.Obj().Name()
-			if byType[tn] == nil {
-				byType[tn] = map[string]bool{}
-			}
-			byType[tn][constant.StringVal(cn.Val())] = true
-		}
-		// every string enum of the schema must appear as the constant set of some type
-		var lists [][]string
-		c.Root.Walk(func(x *sg.Schema) {
-			if !x.HasEnum || len(x.Enum) == 0 {
-				return
-			}
-			if len(x.Types) == 1 && x.Types[0] != "string" {
-				return
-			}
-			var l []string
-			for _, e := range x.Enum {
-				str, ok := e.(string)
+			// constants of the package grouped by their named type
+			byType := map[string]map[string]bool{}
+			scope := p.Report.Pkg.Scope()
+			for _, name := range scope.Names() {
+				cn, ok := scope.Lookup(name).(*types.Const)
 				if !ok {
-					return // mixed / non-string enum: wrapped, no constants promised
+					continue
 				}
-				l = append(l, str)
+				nt, ok := cn.Type().(*types.Named)
+				if !ok || cn.Val().Kind() != constant.String {
+					continue
+				}
+				tn := nt.Obj().Name()
+				if byType[tn] == nil {
+					byType[tn] = map[string]bool{}
+				}
+				byType[tn][constant.StringVal(cn.Val())] = true
 			}
-			lists = append(lists, l)
-		})
-		for _, l := range lists {
-			enums++
-			want := map[string]bool{}
-			for _, v := range l {
-				want[v] = true
-			}
-			found := false
-			best := ""
-			for tn, got := range byType {
-				if len(got) == len(want) {
-					same := true
+			// every string enum of the schema must appear as the constant set of some type
+			var lists [][]string
+			c.Root.Walk(func(x *sg.Schema) {
+				if !x.HasEnum || len(x.Enum) == 0 {
+					return
+				}
+				if len(x.Types) == 1 && x.Types[0] != "string" {
+					return
+				}
+				var l []string
+				for _, e := range x.Enum {
+					str, ok := e.(string)
+					if !ok {
+						return // mixed / non-string enum: wrapped, no constants promised
+					}
+					l = append(l, str)
+				}
+				lists = append(lists, l)
+			})
+			for _, l := range lists {
+				enums++
+				want := map[string]bool{}
+				for _, v := range l {
+					want[v] = true
+				}
+				found := false
+				best := ""
+				for tn, got := range byType {
+					if len(got) == len(want) {
+						same := true
+						for v := range want {
+							same = same && got[v]
+						}
+						if same {
+							found = true
+							break
+						}
+					}
+					// remember a near miss for the message
+					inter := 0
 					for v := range want {
-						same = same && got[v]
+						if got[v] {
+							inter++
+						}
 					}
-					if same {
-						found = true
-						break
-					}
-				}
-				// remember a near miss for the message
-				inter := 0
-				for v := range want {
-					if got[v] {
-						inter++
+					if inter > 0 && best == "" {
+						best = fmt.Sprintf("%s has constants %v", tn, keysOfSet(got))
 					}
 				}
-				if inter > 0 && best == "" {
-					best = fmt.Sprintf("%s has constants %v", tn, keysOfSet(got))
+				if !found {
+					missing++
+					if len(viols) < 4 {
+						b, _ := json.MarshalIndent(map[string]any{"property": "C08", "kind": "constant census", "enum": l, "near_miss": best, "schema": json.RawMessage(jsonx.Marshal(c.Root.ToJSON())), "args": c.Args, "emitted": string(p.Src)}, "", " ")
+						path := filepath.Join(evid.ReplayDir(), fmt.Sprintf("C08-census-%d.json", len(viols)))
+						_ = os.WriteFile(path, b, 0o644)
+						viols = append(viols, Viol{Replay: path, Summary: fmt.Sprintf("constant census: no type exposes exactly one constant per value of the string enum %q (%s)", l, best)})
+					}
 				}
 			}
-			if !found {
-				missing++
-				if len(viols) < 4 {
-					b, _ := json.MarshalIndent(map[string]any{"property": "C08", "kind": "constant census", "enum": l, "near_miss": best, "schema": json.RawMessage(jsonx.Marshal(c.Root.ToJSON())), "args": c.Args, "emitted": string(p.Src)}, "", " ")
-					path := filepath.Join(evid.ReplayDir(), fmt.Sprintf("C08-census-%d.json", len(viols)))
-					_ = os.WriteFile(path, b, 0o644)
-					viols = append(viols, Viol{Replay: path, Summary: fmt.Sprintf("constant census: no type exposes exactly one constant per value of the string enum %q (%s)", l, best)})
-				}
-			}
+			_ = extra
+			_ = onlyModels
 		}
-		_ = extra
-		_ = onlyModels
 	}
-	o.Coverage["string_enums_census"] = enums
-	o.Coverage["string_enums_without_exact_constants"] = missing
-	o.Violations = append(o.Violations, viols...)
+	return each, func(o *Outcome) {
+		o.Coverage["string_enums_census"] = enums
+		o.Coverage["string_enums_without_exact_constants"] = missing
+		o.Violations = append(o.Violations, viols...)
+	}
 }
 
 func keysOfSet(m map[string]bool) []string {
@@ -425,4 +438,50 @@ func keysOfSet(m map[string]bool) []string {
 	}
 	sort.Strings(out)
 	return out
+}
+
+// sameRefTextTwinCase: two schema files in ONE generator invocation that use the same local reference text
+// ("#/$defs/Base") inside an allOf / anyOf / plain property, resolving to DIFFERENT definitions. Every document of each
+// file must be judged by its own definitions (reference resolution is per document; caches must not leak across files).
+func sameRefTextTwinCase(ctx *Ctx, i int, r *sg.Rng, limit int) *sem.Case {
+	if i >= limit {
+		return nil
+	}
+	g := sg.NewGen(r, sg.Opts{NoFormats: true})
+	mkBase := func(v int) *sg.Schema {
+		b := &sg.Schema{Types: []string{"object"}}
+		if v == 0 {
+			b.Props = []sg.Prop{{Name: "id", S: &sg.Schema{Types: []string{"string"}, MinLen: 2}}, {Name: "createdAt", S: &sg.Schema{Types: []string{"integer"}, Min: sg.Fp(0)}}}
+			b.Required = []string{"id"}
+		} else {
+			b.Props = []sg.Prop{{Name: "number", S: &sg.Schema{Types: []string{"integer"}, Min: sg.Fp(1), Max: sg.Fp(999)}}, {Name: "dueDate", S: &sg.Schema{Types: []string{"string"}, MaxLen: 10}}}
+			b.Required = []string{"number"}
+		}
+		if r.Chance(0.5) {
+			b.Props = append(b.Props, sg.Prop{Name: fmt.Sprintf("extra%d", v), S: g.Integer()})
+		}
+		return b
+	}
+	mkRoot := func(v int) *sg.Schema {
+		base := mkBase(v)
+		ref := func() *sg.Schema { return &sg.Schema{Ref: "#/$defs/Base", Target: base} }
+		own := &sg.Schema{Types: []string{"object"}, Props: []sg.Prop{{Name: fmt.Sprintf("own%d", v), S: &sg.Schema{Types: []string{"boolean"}}}}}
+		var use *sg.Schema
+		switch i % 3 {
+		case 0:
+			use = &sg.Schema{AllOf: []*sg.Schema{ref(), own}}
+		case 1:
+			use = &sg.Schema{AnyOf: []*sg.Schema{ref(), {Types: []string{"object"}, Props: []sg.Prop{{Name: fmt.Sprintf("alt%d", v), S: &sg.Schema{Types: []string{"string"}}}}, Required: []string{fmt.Sprintf("alt%d", v)}}}}
+		default:
+			use = ref()
+		}
+		return &sg.Schema{Types: []string{"object"}, Props: []sg.Prop{{Name: "details", S: use}, {Name: "note", S: &sg.Schema{Types: []string{"string"}}}}, Required: []string{"details"}, Defs: []sg.Prop{{Name: "Base", S: base}}}
+	}
+	a := &sem.Case{Root: mkRoot(0), RootFile: "order.json", Sig: fmt.Sprintf("same-ref-text-twin/%d/a", i%3)}
+	b := &sem.Case{Root: mkRoot(1), RootFile: "invoice.json", Sig: fmt.Sprintf("same-ref-text-twin/%d/b", i%3)}
+	if (i/3)%2 == 1 {
+		a, b = b, a
+	}
+	a.Group = []*sem.Case{b}
+	return a
 }
